@@ -87,7 +87,13 @@ func shapeOf(sc *Scenario) string {
 		if m.Mem != nil {
 			sb.WriteString("M")
 		}
-		fmt.Fprintf(&sb, "T%dG%dD%dE%d", len(m.Tables), len(m.Globals), len(m.Datas), len(m.Elems))
+		fmt.Fprintf(&sb, "T%d", len(m.Tables))
+		if len(m.Datas) > 0 {
+			sb.WriteString("D")
+		}
+		if len(m.Elems) > 0 {
+			sb.WriteString("E")
+		}
 		if m.Start != nil {
 			sb.WriteString("S")
 		}
@@ -144,7 +150,7 @@ func run(c *core.Ctx) int {
 		case "race":
 			logb, _ := os.ReadFile(r.Crash.Log)
 			for key, rep := range core.RaceReports(logb) {
-				c.Violate("race:"+strings.ReplaceAll(key, "github.com/tetratelabs/wazero", "wazero"), rep, map[string]any{"case": cs, "mode": mode, "report": rep})
+				c.Violate(raceSig(key, rep), rep, map[string]any{"case": cs, "mode": mode, "report": rep})
 			}
 			c.Count("race_reports", 1)
 			return false // the case still produced output
@@ -165,6 +171,7 @@ func run(c *core.Ctx) int {
 	mres := core.RunCases(c, "matrix", mcases, core.ChildOpts{Batch: 4, TimeoutS: 600, RlimitAS: 8 << 30})
 	c.Extra("phase_matrix_s", time.Since(c.Start).Seconds())
 	pairsDone := 0
+	infoExamples := map[string]string{}
 	for _, r := range mres {
 		if handleCrash("matrix", r, mcases[r.Index]) {
 			continue
@@ -180,10 +187,10 @@ func run(c *core.Ctx) int {
 			c.Count("matrix_"+k, int64(v))
 		}
 		for i, k := range mr.InfoKinds {
-			if c.DistinctN("compatible_import_rejected_information_only") < 40 {
-				c.Distinct("compatible_import_rejected_information_only", k+" e.g. "+mr.InfoPairs[i])
+			if _, seen := infoExamples[k]; !seen {
+				infoExamples[k] = mr.InfoPairs[i]
 			}
-			c.Distinct("compatible_import_rejected_kinds", k)
+			c.Distinct("compatible_import_rejected_information_only", k)
 		}
 		if mr.Sample != "" && r.Index%25 == 0 {
 			c.Sample(map[string]any{"matrix_pair": mr.Sample})
@@ -193,6 +200,7 @@ func run(c *core.Ctx) int {
 				"replay": "exporter exports the object, (optionally) grows it, importer declares the import; see props/c04/matrix.go exporterModule/importerModule"})
 		}
 	}
+	c.Extra("compatible_import_rejected_examples", infoExamples)
 	c.Count("matrix_pairs_enumerated", int64(nPairs))
 	if pairsDone < nPairs {
 		c.Inconclusive("matrix-incomplete")
@@ -243,9 +251,9 @@ func run(c *core.Ctx) int {
 			}
 		}
 		for _, s := range gr.Info {
-			c.Count("graph_compatible_import_rejected_information_only", 1)
-			if c.DistinctN("graph_compatible_import_rejected") < 10 {
-				c.Distinct("graph_compatible_import_rejected", s)
+			c.Count("graph_runs_stopped_by_permitted_rejection_information_only", 1)
+			if c.DistinctN("graph_permitted_rejections") < 10 {
+				c.Distinct("graph_permitted_rejections", s)
 			}
 		}
 		if len(gr.Sample) > 0 && (r.Index == nDirected-1 || r.Index%1100 == 7) {
@@ -309,7 +317,24 @@ func run(c *core.Ctx) int {
 	c.Assume("error texts are not compared, only accept/reject and the trap class of calls")
 	c.Assume("memory.grow/table.grow within the declared maximum are expected to succeed at these sizes (<= 8 pages / <= 16 elements)")
 	return c.Finish(evals, int64(c.DistinctN("graph_shapes")),
-		"evaluations = import/export pairs of the matching matrix (each linked on both engines) + directed scenarios + PRNG module graphs (each run on both engines, every step compared with the store model) + race-sample cases; distinct = distinct link shapes of PRNG graphs with >=2 modules (who imports which extern kind from whom, defined objects, segments, start, expected failure class)")
+		"evaluations = import/export pairs of the matching matrix (each linked on both engines) + directed scenarios + PRNG module graphs (each run on both engines, every step compared with the store model) + race-sample cases; distinct = distinct link shapes of PRNG graphs with >=2 modules (who imports which extern kinds from whom in which order, defined memory/tables, presence of data/element segments and start function, expected failure class)")
+}
+
+// raceSig names a race report. Reports whose two accesses are both in the code that maintains a table's
+// list of using instances (Store.instantiate's loop over exported tables / resolveImports) get one signature.
+func raceSig(key, report string) string {
+	key = strings.ReplaceAll(key, "github.com/tetratelabs/wazero", "wazero")
+	sides := strings.Split(key, " <-> ")
+	userList := len(sides) == 2
+	for _, s := range sides {
+		if !strings.HasSuffix(s, "(*Store).instantiate") && !strings.HasSuffix(s, "(*ModuleInstance).resolveImports") && s != "runtime.growslice" {
+			userList = false
+		}
+	}
+	if userList && strings.Contains(report, "(*Store).instantiate") {
+		return "race:table-user-list:append-without-lock-for-exported-table"
+	}
+	return "race:" + key
 }
 
 func init() { Prop.Replay = replay }
